@@ -1024,8 +1024,10 @@ class StubsStringGenerator:
             # Get alias
             alias = None
             for qualified_import in shortest_reexport_module.qualified_imports:
-                # The import has to name this node, not one whose name just ends with the name of this node
-                if qualified_import.qualified_name.split(".")[-1] == node.name:
+                # The import has to name this node (absolute or relative to the reexporting package), not a node of
+                # another module that has the same name
+                import_id = qualified_import.qualified_name.replace(".", "/")
+                if node.id in {import_id, f"{shortest_reexport_module.id}/{import_id}"}:
                     alias = qualified_import.alias
 
             if alias:
